@@ -190,8 +190,8 @@ theorem outClean_single {P : Nat → Prop} (id : Nat) (pr : BProps) (children : 
           · exact hparts
           · intro x hx
             rcases hx with ⟨_, rfl⟩ | hx
-            · exact hid
-            · exact h.blocks x hx
+            · exact fun a l hal => blockPaint_clean id pr children hid h.inflow (a, l) hal
+            · exact fun a l hal => h.blocks x hx (a, l) hal
           · exact hfloats
           · intro l hl
             rcases hl with ⟨_, rfl⟩ | hl
@@ -449,7 +449,7 @@ end
 structure Seg (b : Box) (cs : List Box) : Prop where
   seg : ∃ P1 part P2 pre post, participants cs = P1 ++ part :: P2 ∧ part.2 = pre ++ specReal b ++ post
     ∧ (∀ e ∈ pre, e.1 ∉ idsOf b) ∧ (∀ e ∈ post, e.1 ∉ idsOf b) ∧ (∀ p ∈ P1 ++ P2, ∀ e ∈ p.2, e.1 ∉ idsOf b)
-  blocks : ∀ x ∈ flowBlocks cs, x ∉ idsOf b
+  blocks : ∀ l ∈ flowBlocks cs, ∀ e ∈ l, e.1 ∉ idsOf b
   floats : ∀ f ∈ floatsOf cs, ∀ e ∈ f, e.1 ∉ idsOf b
   lines : ∀ l ∈ flowLines cs, ∀ e ∈ l, e.1 ∉ idsOf b
   inflow : ∀ x ∈ flowAll cs, x ∉ idsOf b
@@ -559,8 +559,8 @@ theorem seg_single (b : Box) (id : Nat) (pr : BProps) (children : List Box)
           all_goals simp [flowBlocks, floatsOf, flowLines, flowAll, inlineOf, BProps.inFlow, hm', hpos', hf', hi']
           · intro x hx
             rcases hx with ⟨_, rfl⟩ | hx
-            · exact hid
-            · exact hc.blocks x hx
+            · exact fun a l hal => blockPaint_clean (P := fun x => x ∉ idsOf b) id pr children hid hc.inflow (a, l) hal
+            · exact fun a l hal => hc.blocks x hx (a, l) hal
           · exact hfl
           · intro l hl
             rcases hl with ⟨_, rfl⟩ | hl
